@@ -15,7 +15,7 @@ StateEq(o, r) ==
     /\ \A n \in DOMAIN r.vars : n \in DOMAIN o.vars /\ VarEq(o.vars[n], r.vars[n])
     /\ o.funcs["f1"] = r.funcs["f1"] /\ o.aliases["a1"] = r.aliases["a1"]
     /\ SeqSet(o.opts) = SeqSet(r.opts) /\ SeqSet(o.shopts) = SeqSet(r.shopts)
-    /\ o.cwd = r.cwd /\ o.stack = r.stack
+    /\ o.cwd = r.cwd /\ o.stack = r.stack /\ o.optind = r.optind
     /\ o.env_ok                          \* exported scalars (and only they) are in the environment, with the same value
 IsState(o) == "vars" \in DOMAIN o
 K == 1..Len(R.hist)
